@@ -674,6 +674,24 @@ async fn resume_case(rep: &mut Report, tr: Transport, sndtimeo_ms: i32) {
   // drain warm-up leftovers
   while let Ok(Ok(_)) = tokio::time::timeout(Duration::from_millis(100), slow.recv()).await {}
   while let Ok(Ok(_)) = tokio::time::timeout(Duration::from_millis(100), fast.recv()).await {}
+  // the subscriber that keeps up reads all the time
+  let fast_reader = {
+    let f = fast.clone();
+    tokio::spawn(async move {
+      let mut got: Vec<Vec<u8>> = vec![];
+      let mut idle = 0;
+      while idle < 3 {
+        match f.recv().await {
+          Ok(m) => {
+            idle = 0;
+            got.push(m.data().unwrap_or(&[]).to_vec());
+          }
+          Err(_) => idle += 1,
+        }
+      }
+      got
+    })
+  };
   // phase 1: the slow subscriber does not read; publish a burst (64 KiB each over stream transports so that kernel buffers fill)
   let big = if tr == Transport::Inproc { 100 } else { 64 * 1024 };
   let mut published: Vec<Vec<u8>> = vec![];
@@ -704,10 +722,7 @@ async fn resume_case(rep: &mut Report, tr: Transport, sndtimeo_ms: i32) {
     }
   }
   // the subscriber that kept up
-  let mut fast_got: Vec<Vec<u8>> = vec![];
-  while let Ok(Ok(m)) = tokio::time::timeout(Duration::from_millis(400), fast.recv()).await {
-    fast_got.push(m.data().unwrap_or(&[]).to_vec());
-  }
+  let fast_got: Vec<Vec<u8>> = tokio::time::timeout(Duration::from_secs(20), fast_reader).await.ok().and_then(|x| x.ok()).unwrap_or_default();
   rep.case(&("resume", tr, sndtimeo_ms), true);
   rep.count("resume_slow_subscriber_got_of_burst", slow_burst);
   rep.max("max:resume_slowest_publish_ms", slowest.as_millis() as u64);
@@ -715,9 +730,24 @@ async fn resume_case(rep: &mut Report, tr: Transport, sndtimeo_ms: i32) {
   if slow_after < 10 {
     rep.violation(format!("subscriber_cut_off_after_stall|{}", if tr == Transport::Inproc { "inproc" } else { "stream" }), format!("{}: after it resumed reading the stalled subscriber received {} of 10 newly published matching messages ({} of the burst)", cfg, slow_after, slow_burst), json!({"config": cfg, "after": slow_after, "of_burst": slow_burst}));
   }
-  if fast_got != published {
-    let first_diff = fast_got.iter().zip(published.iter()).position(|(a, b)| a != b).unwrap_or(fast_got.len().min(published.len()));
-    rep.violation(format!("keeping_up_subscriber_missed_messages|{}", if tr == Transport::Inproc { "inproc" } else { "stream" }), format!("{}: the subscriber that kept up received {} of {} messages (first difference at {})", cfg, fast_got.len(), published.len(), first_diff), json!({"config": cfg}));
+  // PUB may drop for a subscriber whose pipe is momentarily full, so "everything" is not demanded of the burst; but
+  // what the reading subscriber gets must be an in-order subsequence of what was published (nothing foreign, nothing
+  // twice, nothing reordered) and must include the ten messages published one at a time at the end
+  let mut pos = 0usize;
+  let mut bad: Option<String> = None;
+  for g in &fast_got {
+    match published[pos..].iter().position(|p| p == g) {
+      Some(k) => pos += k + 1,
+      None => {
+        bad = Some(format!("message {:?} is foreign, duplicated or out of order", String::from_utf8_lossy(&g[..g.len().min(16)])));
+        break;
+      }
+    }
+  }
+  let fast_after = fast_got.iter().filter(|g| g.starts_with(b"t-after-")).count();
+  rep.count("resume_reading_subscriber_got", fast_got.len() as u64);
+  if bad.is_some() || fast_after < 10 {
+    rep.violation(format!("reading_subscriber_stream_wrong|{}", if tr == Transport::Inproc { "inproc" } else { "stream" }), format!("{}: the subscriber that read all the time received {} of {} messages, {} of the last 10; {}", cfg, fast_got.len(), published.len(), fast_after, bad.unwrap_or_default()), json!({"config": cfg}));
   }
   let _ = tokio::time::timeout(Duration::from_secs(10), ctx.term()).await;
 }
